@@ -27,7 +27,7 @@ func (u *Unit) syncCall(st *State, call *ast.CallExpr, fn *types.Func, sel *ast.
 		lv := u.mutexLV(st, sel)
 		name := exprText(sel.X)
 		u.stubsUsed["model:sync."+fn.Name()] = true
-		if len(u.frames) == 1 {
+		if u.anchorsApply() {
 			u.runAnchorsNamed(st, "before:"+fn.Name(), call.Pos(), nil)
 		}
 		switch fn.Name() {
@@ -54,7 +54,7 @@ func (u *Unit) syncCall(st *State, call *ast.CallExpr, fn *types.Func, sel *ast.
 		default:
 			u.abstract("sync.%s.%s not modelled", rn, fn.Name())
 		}
-		if len(u.frames) == 1 {
+		if u.anchorsApply() {
 			u.runAnchorsNamed(st, "after:"+fn.Name(), call.Pos(), nil)
 		}
 		return &syncResult{}
@@ -512,7 +512,7 @@ func (u *Unit) sortSearch(st *State, cs *callSite) Value {
 	k := Term{"k!ss", SInt}
 	inR := func(x Term) Term { return And(Le(IntLit(0), x), Lt(x, n)) }
 	mono := Forall([]Term{j, k}, Imp(And(inR(j), inR(k), Le(j, k), pred(st, j)), pred(st, k)))
-	u.oblige(st, "pre:sort.Search.monotone@"+exprText(cs.call), "requires", nil, mono, cs.call.Pos(), "sort.Search predicate is monotone")
+	u.oblige(st, "pre:sort.Search.monotone@sort.Search", "requires", nil, mono, cs.call.Pos(), "sort.Search predicate is monotone")
 	r := u.d.Fresh("search", SInt)
 	st.assume(And(Le(IntLit(0), r), Le(r, n)))
 	st.assume(Forall([]Term{j}, Imp(And(Le(IntLit(0), j), Lt(j, r)), Not(pred(st, j)))))
